@@ -195,7 +195,7 @@ def ebr_strict_validate(trace, threads, timeout_s=3000):
         if r["k"] == "reset":
             loose, ext = False, set()
             continue
-        trusted = r["k"] in ("fin", "abort") or r["nest"] or r["mask"] != 2
+        trusted = r["k"] in ("fin", "abort") or r["mask"] != 2
         loose = loose or trusted
         if loose:
             continue
